@@ -49,6 +49,17 @@ class _Alloc:
         self.text = _txt(expr)
 
 
+class _Alias:
+    """Another local name bound to the same allocated object."""
+
+    def __init__(self, alloc, name):
+        self.__dict__.update(alloc.__dict__)
+        self.name = name
+        self.aliases = getattr(alloc, "aliases", {alloc.name})
+        self.aliases.add(name)
+        alloc.aliases = self.aliases
+
+
 def _store_key(ctx, module, step, alloc_names):
     """If the step stores (unmasked) into V.values[K] / V[K] return [(V, K expr, masked)]."""
     out = []
@@ -128,8 +139,8 @@ def run(ctx) -> RuleResult:
         "unmasked, on every path before the object is used as a whole / returned",
     )
     n_sites = 0
-    for module, qual, func in ctx.repo.all_functions():
-        if module.is_pyx:
+    for module, qual, func in ctx.repo.analysed_functions():
+        if module.is_pyx or func.name in module.absorbed:
             continue
         fq = f"{module.name}.{qual}"
         local_names = ctx.locals_of(func)
@@ -198,6 +209,11 @@ def _check_path(ctx, module, func, fq, qual, path, result, verdicts):
             if cur is None or _txt(_strip_values(cur)) != alloc.text:
                 done.add(name)  # rebound before escaping: dead store
                 continue
+            if step.kind == "stmt" and isinstance(step.node, ast.Assign) and isinstance(step.node.value, ast.Name) \
+                    and step.node.value.id == name and all(isinstance(t, ast.Name) for t in step.node.targets):
+                for t in step.node.targets:  # plain alias (e.g. parameter binding of an inlined helper)
+                    allocs.setdefault(t.id, _Alias(alloc, t.id))
+                continue
             use = _uses_whole(step, name, ctx, module)
             # handing V.values.ravel() to a raw writer is judged by _initialised
             if use is not None:
@@ -234,6 +250,7 @@ def _strip_values(expr):
 def _initialised(ctx, module, path, alloc: _Alloc, upto: int):
     """Are all keys of the allocation written between its creation and step ``upto``?"""
     name = alloc.name
+    names = set(getattr(alloc, "aliases", {name}))
     loops: Dict[int, dict] = {}
     stores = []
     raw_writer = None
@@ -252,7 +269,7 @@ def _initialised(ctx, module, path, alloc: _Alloc, upto: int):
                                     "iter_text": _txt(step.expand(step.node.iter))}
         if idx <= alloc.index:
             continue
-        for var, key, masked in _store_key(ctx, module, step, {name}):
+        for var, key, masked in _store_key(ctx, module, step, names):
             if masked:
                 continue  # a masked write leaves the masked-out positions raw
             key_exp = step.expand(key)
@@ -267,20 +284,20 @@ def _initialised(ctx, module, path, alloc: _Alloc, upto: int):
             base = tgt.value.value if isinstance(tgt.value, ast.Attribute) and tgt.value.attr == "values" else tgt.value
             whole = (isinstance(tgt.slice, ast.Constant) and tgt.slice.value is Ellipsis) or (
                 isinstance(tgt.slice, ast.Slice) and tgt.slice.lower is None and tgt.slice.upper is None and tgt.slice.step is None)
-            if whole and isinstance(base, ast.Name) and base.id == name:
+            if whole and isinstance(base, ast.Name) and base.id in names:
                 whole_fill = True
         if step.kind == "stmt" and isinstance(node, ast.Expr) and isinstance(node.value, ast.Call) \
                 and isinstance(node.value.func, ast.Attribute) and node.value.func.attr == "fill":
             recv = node.value.func.value
             base = recv.value if isinstance(recv, ast.Attribute) and recv.attr == "values" else recv
-            if isinstance(base, ast.Name) and base.id == name:
+            if isinstance(base, ast.Name) and base.id in names:
                 whole_fill = True
         for raw in step_exprs(step):
             for call in calls_in(raw):
                 cname = ctx.dotted(module, call.func)
                 if cname in (CFROM, CMUL) and call.args:
                     dest = call.args[-1]
-                    if name in {n.id for n in ast.walk(dest) if isinstance(n, ast.Name)}:
+                    if names & {n.id for n in ast.walk(dest) if isinstance(n, ast.Name)}:
                         raw_writer = (cname, step, call)
     if whole_fill:
         return True, "the whole structured buffer is filled at once"
